@@ -326,5 +326,7 @@ func main() {
 	c.Set("slots", fmt.Sprint(slots))
 	c.Assume("ed25519 and blake2b are trusted (used to sign the body hash so that the whole rule list accepts the baseline)")
 	c.Assume("Shelley transactions always carry a ttl (mandatory in the Shelley CDDL); the absent case is not part of the Shelley space")
+	// free-running -race pass: concurrent callers on their own inputs (state the library shares between calls)
+	c.RaceAudit("c26")
 	c.Finish()
 }
